@@ -51,7 +51,7 @@ def s_hatvee():
 def s_adjoint():
     return st.fixed_dictionaries({
         "kind": st.just("adjoint"),
-        "T1": gens.pose3(t_hi=3), "T2": gens.pose3(t_hi=3),
+        "T1": gens.pose3(t_hi=3, tiny=True), "T2": gens.pose3(t_hi=3, tiny=True),
         "S": st.fixed_dictionaries({"v": gens.trans(3, -3, 1), "w": st.tuples(gens.direction3(), gens.rot_angles(-12)).map(lambda t: [x * t[1] for x in t[0]])}),
     })
 
@@ -164,6 +164,10 @@ def _adjoint(case):
     okc, Ac = c.lib("SE3.Ad", lambda: L.SE3(T1, check=False).Ad())
     if okc:
         c.eq("SE3.Ad", Ac, refs.adjoint(T1), 1e-9, sc)
+    # the same object re-used after its value was replaced must give the adjoint of the new value
+    okr, Ar = c.lib("SE3.Ad/reused", lambda: _reused_ad(T2, T1))
+    if okr:
+        c.eq("SE3.Ad/reused", Ar, refs.adjoint(T1), 1e-9, sc)
     # rotation-only adjoint
     okr, Ar = c.lib("adjoint(R)", b.adjoint, T1[:3, :3].copy())
     if okr:
@@ -201,6 +205,17 @@ def _adjoint(case):
     if okj3 and okj:
         c.eq("SE3.jacob", J3, J, 0)
     return c.out
+
+
+def _reused_ad(Ta, Tb):
+    X = L.SE3(Ta.copy(), check=False)
+    A = X.Ad()
+    try:
+        A *= 2.0                      # the caller's own use of the returned matrix must not matter
+    except Exception:  # noqa
+        pass
+    X[0] = L.SE3(Tb.copy(), check=False)
+    return X.Ad()
 
 
 def _delta(case):
